@@ -134,7 +134,7 @@ def cases(run, rng):
             INDEP_FAIL.append({"label": "random:statement", "class": QNAMES[qc], "seed": seed, "parameterised_sql_actual_values": sa,
                                "parameterised_sql_marker_values": sb, "values_actual": [repr(v)[:60] for v in va], "values_marker": [repr(v)[:60] for v in vb]})
 
-    def mk(label, obj, qc, own=False):
+    def mk(label, obj, qc, own=False, numbered=False):
         ctx = qc.SQL_CONTEXT
         try:
             si = obj.get_sql(ctx)
@@ -147,14 +147,26 @@ def cases(run, rng):
         pvs = [pval(v) for v in pz.values]
         if any(x is None for x in pvs):
             return None
-        corr = [(obj, [(QNAMES[qc], ctx, "inline"), (QNAMES[qc], ctx, "qfactory" if own else "param")])]
+        # (a caller-supplied factory that uses its argument - the 1-based number of the value - is tied to the model as well)
+        corr = [(obj, [(QNAMES[qc], ctx, "inline"), (QNAMES[qc], ctx, "qfactory" if own else "param")] + ([(QNAMES[qc], ctx, "factory")] if numbered else []))]
+        if numbered and qc is PostgreSQLQuery:
+            # under PostgreSQL the built-in style IS "$<n>": a factory spelling the same must give the same text and values
+            pf = Parameterizer(placeholder_factory=lambda i: "$%d" % i)
+            try:
+                sf = obj.get_sql(ctx.copy(parameterizer=pf))
+            except Exception as e:  # noqa
+                sf = "EXC:" + type(e).__name__
+            INDEP_SEEN.append("factory")
+            if not own and (sf != sp or [repr(v) for v in pf.values] != [repr(v) for v in pz.values]):
+                INDEP_FAIL.append({"label": label + ":numbering-factory", "class": QNAMES[qc], "seed": None, "parameterised_sql_actual_values": sf,
+                                   "parameterised_sql_marker_values": sp, "values_actual": [repr(v)[:60] for v in pf.values], "values_marker": [repr(v)[:60] for v in pz.values]})
         return {"label": label, "corr": corr,
                 "expr": "j %s %s %s %s %s" % (ctx.dialect.name, "true" if own else "false", cstr(sp), clist(pvs), cstr(si)),
                 "known": None,
                 "describe": {"class": QNAMES[qc], "parameterised_sql": sp, "values": [repr(v)[:80] for v in pz.values], "inline_sql": si}}
     for qc in QUERY_CLASSES:
         for lab, obj in shapes(qc):
-            c = mk("shape:" + lab, obj, qc)
+            c = mk("shape:" + lab, obj, qc, numbered=True)
             if c:
                 yield c
     n = 500 if run.tier == "quick" else 8000
@@ -165,7 +177,7 @@ def cases(run, rng):
             obj = g.statement(qc, 2)
         except Exception:
             continue
-        c = mk("random:statement", obj, qc, own=(i % 10 == 9 and qc not in (PostgreSQLQuery, MySQLQuery)))
+        c = mk("random:statement", obj, qc, own=(i % 10 == 9 and qc not in (PostgreSQLQuery, MySQLQuery)), numbered=(i % 4 == 2))
         if c:
             yield c
 
@@ -215,7 +227,9 @@ class LazyViolations:
     """evaluated after the cases generator has run"""
 
     def __iter__(self):
-        return iter([("C04: the parameterised text depends on the values (a parameterised value's text remains in the SQL): %s vs %s"
+        return iter([(("C04: a placeholder factory spelling the built-in style ($<n>, n = the 1-based number of the value) gives another text or value list: %s vs %s"
+                       if f["label"].endswith(":numbering-factory") else
+                       "C04: the parameterised text depends on the values (a parameterised value's text remains in the SQL): %s vs %s")
                       % (f["parameterised_sql_actual_values"][:250], f["parameterised_sql_marker_values"][:250]), dict(f, kind="value-independence"))
                      for f in INDEP_FAIL] +
                     [("C04: a value that is exempt by contract (%s) is listed as a parameter at position %s under %s: %s with values %s"
